@@ -251,6 +251,7 @@ def _check_plot2d(inp, T, case):
     try:
         if inp.get("own_ax"):
             fig, ax0 = plt.subplots()
+            plt.subplots()  # make ANOTHER axes pyplot's current one: everything has to be drawn on the axes that was passed
             kw["ax"] = ax0
         try:
             res = plot_2D_contour(contour, **kw)
@@ -366,6 +367,7 @@ def _check_iso(inp, T, case):
     swap = bool(inp["swap"])
     xi, yi = (1, 0) if swap else (0, 1)
     fig, ax = plt.subplots()
+    plt.subplots()  # another figure becomes pyplot's CURRENT axes: what is drawn has to land on the axes that was passed
     seen = {}
     orig = ax.contour
 
